@@ -124,6 +124,19 @@ OPEN = [
                     "cumulative object itself instead of its elementary workers, so an assigned cumulative worker is rejected as "
                     "unassigned; what 'consecutive tasks' means on a resource that runs tasks in parallel is not documented, so no "
                     "repair is attempted"},
+    {"property": "C13", "key": "box-mode-successive-solves-end-with-failure",
+     "where": "processscheduler/solver.py solve() -> z3.Optimize.check() with priority 'box' and >= 2 objectives",
+     "match": {"clause": "C13.false_on_feasible", "direction": "lost",
+               "features": {"op": "S", "optimizer": "optimize", "priority": "box", "multi_objective": True}},
+     "minimal_input": "horizon 4, t0 (fixed 2) and t1 (fixed 1) on one worker, ObjectiveMaximizeIndicator(start t0, weight 2) and "
+                      "ObjectiveMaximizeIndicator(end t1), SchedulingSolver(optimizer='optimize', optimize_priority='box'): "
+                      "solve() four times -> schedule, schedule, False, schedule (pure z3: Optimize with two objectives in box "
+                      "mode answers sat, sat, unsat, sat to four check() calls)",
+     "description": "in box mode z3 hands out the per-objective optimal models one check() at a time and marks the end of the "
+                    "list with unsat, exactly as it does with the Pareto front; the library passes that unsat on as 'no solution' "
+                    "for a feasible problem on the (number of objectives + 1)-th solve(). The property exempts only the Pareto "
+                    "mode, so this is recorded; a repair has to decide what repeated solves mean in box mode (reset the "
+                    "optimiser? repeat the last model?), which is the maintainers' call"},
 ]
 
 
